@@ -54,10 +54,10 @@ def run_sweep(case):
     vcount = collections.Counter()
     cnt = collections.Counter()
 
-    def violate(prop, mech, msg, **w):
-        vcount[(prop, mech)] += 1
-        if vcount[(prop, mech)] <= 3:
-            viol.append({"property": prop, "mechanism": mech, "message": msg, "step": None, "witness": {k: str(v) for k, v in w.items()}})
+    def violate(prop, mechanism, msg, **w):  # (witness keys are free: "mech" is one of them)
+        vcount[(prop, mechanism)] += 1
+        if vcount[(prop, mechanism)] <= 3:
+            viol.append({"property": prop, "mechanism": mechanism, "message": msg, "step": None, "witness": {k: str(v) for k, v in w.items()}})
 
     def count(k, n=1):
         cnt[k] += n
